@@ -1,21 +1,144 @@
-import Srctools.Model.C05
+import Srctools.Proofs.C05
 import Srctools.Gen.Angles
 import Srctools.Gen.Frozen
-/-! C05 — property theorems (work in progress: translator obligations first). -/
+set_option exponentiation.threshold 3000
+/-! C05 — Angle stays in [0,360), frozen values never change, text form is canonical.
+
+Property theorems only; models in `Model/B64.lean`, `Model/C05.lean`, `Model/C05Sites.lean`; lemmas in
+`Proofs/C05.lean`. `Gen.Angles` / `Gen.Frozen` are regenerated from `/repo/src/srctools/math.py` on every run. -/
 namespace C05
+open B64
 
 def genFrozen : FrozenFacts := ⟨Gen.Frozen.classes, Gen.Frozen.stores, Gen.Frozen.helperCalls, Gen.Frozen.returns⟩
 
+/-! ## translator obligations (decided on the current source) -/
+
 /-- every write to `_pitch/_yaw/_roll` in math.py is `e % 360 % 360`, a field copy or the literal 0; the slots are
-the three of `AngleBase`; every site is one the state machine models, in an acceptable role. -/
+the three of `AngleBase`; every site is one the state machine models, in an acceptable role, and the state
+machine knows every site. -/
 theorem C05_gen_angles_ok :
     anglesOK Gen.Angles.sites = true ∧ angleSlotsOK Gen.Angles.slots = true ∧
     modelSitesOK Gen.Angles.sites = true ∧ sitesCovered Gen.Angles.sites = true := by
   decide +kernel
 
 /-- no store into a vector/angle/matrix slot can reach an object that was not created by the running operation,
-unless it is the `self` of a mutable class; mutable `copy()` returns a new object. -/
+unless it is the `self` of a mutable class; `copy()`/`__copy__` of the mutable classes return new objects. -/
 theorem C05_gen_frozen_ok : genFrozen.frozenOK = true ∧ genFrozen.copiesOK = true := by
   decide +kernel
+
+/-! ## `x % 360 % 360` -/
+
+/-- For every rounding system (monotone, identity on representable numbers, 0 and 360 representable) and every
+rational `x`: `0 ≤ x % 360 % 360 < 360`. -/
+theorem C05_norm_range (RS : RoundingSystem) (x : Rat) : 0 ≤ norm2Q RS x ∧ norm2Q RS x < 360 :=
+  norm2Q_range RS x
+
+/-- rounding systems exist: exact arithmetic … -/
+example : RoundingSystem :=
+  { rnd := id, Rep := fun _ => True, rnd_rep := fun _ _ => rfl, mono := fun _ _ h => h, rep_zero := trivial, rep_360 := trivial }
+/-- … and rounding down to integers. -/
+example : RoundingSystem :=
+  { rnd := fun q => (q.floor : Int), Rep := fun q => ((q.floor : Int) : Rat) = q, rnd_rep := fun _ h => h,
+    mono := fun _ _ h => by exact_mod_cast Rat.floor_monotone h,
+    rep_zero := by
+      have := Rat.floor_intCast 0
+      simp only [Int.cast_zero] at this
+      simp [this],
+    rep_360 := by
+      have := Rat.floor_intCast 360
+      simp only [Int.cast_ofNat] at this
+      simp [this] }
+
+/-- The same for the exact binary64 model that is compared bit for bit with CPython: for every finite double `x`,
+`x % 360.0 % 360.0` is a finite non-negative double strictly below 360.0 (magnitudes in units of 2^-1074). -/
+theorem C05_norm_range_b64 (x : Val) (hx : x.isFinite = true) :
+    ∃ b, norm360 x = .fin false b ∧ b < 360 * U := by
+  cases x with
+  | fin s m => exact norm360_fin s m
+  | inf s => cases hx
+  | nan => cases hx
+
+example : (decode 0xBD06849B86A12B9B).isFinite = true := by decide +kernel   -- -1e-14
+
+/-- One modulo is not enough: there is a finite double (-1e-14) with `x % 360.0 == 360.0` exactly. -/
+theorem C05_mod1_not_enough :
+    ∃ w : UInt64, (decode w).isFinite = true ∧ encode (mod360 (decode w)) = encode c360 ∧
+      encode (norm360 (decode w)) = 0 :=
+  ⟨0xBD06849B86A12B9B, by decide +kernel⟩
+
+/-! ## the invariant over histories -/
+
+/-- For every number system satisfying the range law of `norm2`, if every source write site used by the state machine
+has class `norm2` / `zero` (inputs) or additionally `copyField` (values read from an angle), then after any history
+of API calls whose numeric inputs are finite every live Angle / FrozenAngle has all three fields in [0, 360). -/
+theorem C05_angle_inv {α : Type} {N : NumSys α} (L : NumLaws N) (sites : List AngleSite)
+    (hs : modelSitesOK sites = true) (ops : List (Op α)) (hw : WfRun L sites [] ops) :
+    Inv L (run N sites [] ops) :=
+  run_inv L hs ops [] (inv_nil L) hw
+
+/-- … instantiated with the sites extracted from the current math.py and the exact binary64 model. -/
+theorem C05_angle_inv_b64 (ops : List (Op Val)) (hw : WfRun b64Laws Gen.Angles.sites [] ops) :
+    ∀ o ∈ run b64 Gen.Angles.sites [] ops, o.kind.isAngle = true →
+      (∃ b, o.a = .fin false b ∧ b < 360 * U) ∧ (∃ b, o.b = .fin false b ∧ b < 360 * U) ∧
+      (∃ b, o.c = .fin false b ∧ b < 360 * U) :=
+  fun o ho hk => C05_angle_inv b64Laws Gen.Angles.sites C05_gen_angles_ok.2.2.1 ops hw o ho hk
+
+/-- … and with an arbitrary rounding system (all arithmetic rounded by it). -/
+theorem C05_angle_inv_rs (RS : RoundingSystem) (ops : List (Op Rat)) (hw : WfRun (absLaws RS) Gen.Angles.sites [] ops) :
+    ∀ o ∈ run (absSys RS) Gen.Angles.sites [] ops, o.kind.isAngle = true →
+      (0 ≤ o.a ∧ o.a < 360) ∧ (0 ≤ o.b ∧ o.b < 360) ∧ (0 ≤ o.c ∧ o.c < 360) :=
+  fun o ho hk => C05_angle_inv (absLaws RS) Gen.Angles.sites C05_gen_angles_ok.2.2.1 ops hw o ho hk
+
+/-- the hypotheses are satisfiable: `a = Angle(-1e-14, 360.0, 725.5); a *= 2.0; a.freeze()` is a well-formed history. -/
+example : WfRun b64Laws Gen.Angles.sites []
+    [.ctor false false (decode 0xBD06849B86A12B9B) (decode 0x4076800000000000) (decode 0x4086AC0000000000),
+     .imul 0 (decode 0x4000000000000000), .freeze 0] := by
+  have fin_iff : ∀ x, b64Laws.Fin x ↔ x.isFinite = true := fun _ => Iff.rfl
+  refine ⟨⟨(fin_iff _).2 (by decide +kernel), (fin_iff _).2 (by decide +kernel), (fin_iff _).2 (by decide +kernel)⟩,
+    ?_, trivial, trivial⟩
+  intro o ho
+  have : o = (run b64 Gen.Angles.sites []
+    [.ctor false false (decode 0xBD06849B86A12B9B) (decode 0x4076800000000000) (decode 0x4086AC0000000000)])[0]! := by
+    have h2 : (step b64 Gen.Angles.sites [] (.ctor false false (decode 0xBD06849B86A12B9B) (decode 0x4076800000000000)
+      (decode 0x4086AC0000000000))).1[0]? = some o := ho
+    simp only [step, List.nil_append, List.length_nil] at h2
+    simp only [run, List.foldl, step, List.nil_append]
+    simpa using h2.symm
+  subst this
+  refine ⟨(fin_iff _).2 ?_, (fin_iff _).2 ?_, (fin_iff _).2 ?_⟩ <;> decide +kernel
+
+/-- The invariant really depends on the second modulo: with the site list of the source *before* the repair
+(`_to_angle` writing `e % 360.0` once) the history "convert a matrix whose yaw computes as -1e-14 degrees"
+produces an Angle with yaw exactly 360.0. -/
+theorem C05_angle_inv_needs_norm2 :
+    let old := Gen.Angles.sites.map fun s =>
+      if s.fn == "MatrixBase._to_angle" && s.cls == .norm2 then { s with cls := .mod1 } else s
+    (run b64 old [] [.toAngle none false [decode 0xBD06849B86A12B9B, decode 0, decode 0]]).map (fun o => encode o.b)
+      = [encode c360] := by
+  decide +kernel
+
+/-! ## frozen objects -/
+
+/-- In the state machine (compared with the implementation after every step), an API call changes at most the object
+it reports as its target, and that object is mutable. -/
+theorem C05_frame_machine {α : Type} (N : NumSys α) (sites : List AngleSite) (st : State α) (op : Op α) (j : Nat)
+    (o : Obj α) (hj : st[j]? = some o) :
+    (step N sites st op).1[j]? = some o ∨ ((step N sites st op).2 = some j ∧ o.kind.frozen = false) :=
+  step_frame N sites st op j o hj
+
+/-- … hence no history changes a FrozenAngle / FrozenVec. -/
+theorem C05_frozen_machine {α : Type} (N : NumSys α) (sites : List AngleSite) (ops : List (Op α)) (st : State α)
+    (j : Nat) (o : Obj α) (hj : st[j]? = some o) (hf : o.kind.frozen = true) :
+    (run N sites st ops)[j]? = some o :=
+  run_frozen N sites ops st j o hj hf
+
+/-- Heap level, all nine classes (matrices included): along any history of API calls whose slot stores execute
+sites of `Gen.Frozen.stores` (read as the translator reads them: an accepted origin denotes an object allocated by the
+running call or an instance of a mutable class), every frozen object keeps the values it had when the call that
+created it returned. -/
+theorem C05_frozen {α : Type} (calls : List (List (Ev α))) (h : Heap α) (hok : HistoryOK genFrozen h calls)
+    (l : Nat) (c : Cell α) (hc : h[l]? = some c) (hm : c.role ≠ .mutable) :
+    (execHistory h calls)[l]? = some c :=
+  history_frame C05_gen_frozen_ok.1 calls h hok l c hc hm
 
 end C05
